@@ -155,7 +155,7 @@ fn mutate_shelley_plus(rng: &mut Rng, c: &mut Case, f: &Fixture) -> Option<Strin
     let n_out = output_count(&tx);
     let net = c.env.network_id;
     let legacy_default = !post_alonzo(c.era) || rng.bool();
-    match rng.below(34) {
+    match rng.below(36) {
         0 if n_out > 0 => {
             let (i, v) = (rng.usize_below(n_out), edge(rng));
             c.tx = edit_output(&tx, i, |o| {
@@ -525,6 +525,28 @@ fn mutate_shelley_plus(rng: &mut Rng, c: &mut Case, f: &Fixture) -> Option<Strin
             items.push(Node::bytes(&[0x46, 0x01, 0x00, 0x00, 0x22, 0x20, 0x01]));
             c.tx = wits_set(&tx, k, Some(list_like(cur.as_ref(), items)));
             Some(format!("wits[{k}] +script"))
+        }
+        33 | 34 if !matches!(c.era, Era::Shelley | Era::Allegra | Era::Mary) => {
+            // one or two additional collateral inputs with own key-locked UTxO entries whose coins are
+            // valid u64 values but may sum past 2^64 with the others
+            let mut v = body_inputs(&tx, 13);
+            let n_new = 1 + rng.usize_below(2);
+            let mut coins = vec![];
+            for _ in 0..n_new {
+                let h: [u8; 32] = rng.array();
+                let e = edge(rng); let coin = *rng.pick(&[u64::MAX, u64::MAX - 10, u64::MAX / 2 + 1, 1u64 << 63, 4_000_000, 5_000_000_000, e]);
+                let mut o = f.utxo.iter().find(|e| e.role == Role::Collateral).or(f.utxo.first())?.out.clone();
+                o.coin = coin;
+                o.datum = Datum::None;
+                o.script_ref = None;
+                o.assets = vec![];
+                let st = f.style();
+                c.utxo.push(UEntry { tx_hash: h, index: 0, out: o, style: st, era: era_of_style(st), byron_input: false });
+                v.push((h, 0));
+                coins.push(coin);
+            }
+            c.tx = set_inputs(&tx, 13, &v);
+            Some(format!("collateral.add({coins:?})"))
         }
         31 => {
             // byte-level mutation that still decodes (checked by the caller)
